@@ -25,6 +25,7 @@ import (
 	"sort"
 	"strings"
 	"sync"
+	"sync/atomic"
 	"time"
 
 	mqtt "github.com/at-wat/mqtt-go"
@@ -38,6 +39,45 @@ func init() {
 const c11Wait = 5 * time.Second
 
 var c11WaitScale = 1 // raised by C11_WAIT_SCALE for experiments
+
+// Hard budget. Every wait goes through c11Clamp: once two waits have run into their limit in this process
+// (never on a healthy tree) the remaining ones are cut to c11ShortWait, so that a broken tree is reported in
+// minutes. Expired waits are observations ("stuck"), never errors of the harness.
+const c11ShortWait = time.Second
+
+var c11Expiries int32
+
+func c11Limit() time.Duration { return c11Clamp(c11Wait * time.Duration(c11WaitScale)) }
+
+func c11Clamp(d time.Duration) time.Duration {
+	if atomic.LoadInt32(&c11Expiries) >= 2 && d > c11ShortWait {
+		return c11ShortWait
+	}
+	return d
+}
+
+func c11Expired(d time.Duration) {
+	if d >= time.Second {
+		atomic.AddInt32(&c11Expiries, 1)
+	}
+}
+
+// c11CloseG calls cli.Close() without trusting it to return (or not to panic)
+func c11CloseG(cli *mqtt.BaseClient, stuck *string) {
+	r, ok := c11Await(c11Go(func() error { cli.Close(); return nil }), c11Limit())
+	switch {
+	case !ok:
+		*stuck += "Close() did not return "
+	case r.panicked != "":
+		*stuck += "Close() panicked: " + r.panicked + " "
+	}
+}
+
+// the retry handle under test in the current scenario (scenarios run one at a time in the child)
+var c11Handle mqtt.ErrorWithRetry
+
+var c11RetryCalls = map[string]string{"rpub1": "pub1", "rpub1x": "pub1", "rpub2": "pub2", "rpub2x": "pub2", "rrel": "rel", "rrelx": "rel",
+	"rsub": "sub", "rsubx": "sub", "runsub": "unsub", "runsubx": "unsub"}
 
 var c11LockWaitAbsent bool // no call was ever seen waiting in RWMutex.RLock (library changed its locking)
 
@@ -142,6 +182,7 @@ func (sc *c11Scope) find(pred func(string) bool) []string {
 
 // waitNone polls until no such goroutine exists (observation, not a sleep-based schedule)
 func (sc *c11Scope) waitNone(pred func(string) bool, d time.Duration) (bool, []string) {
+	d = c11Clamp(d)
 	deadline := time.Now().Add(d)
 	for {
 		l := sc.find(pred)
@@ -149,6 +190,7 @@ func (sc *c11Scope) waitNone(pred func(string) bool, d time.Duration) (bool, []s
 			return true, nil
 		}
 		if time.Now().After(deadline) {
+			c11Expired(d)
 			return false, l
 		}
 		time.Sleep(time.Millisecond)
@@ -184,6 +226,7 @@ func (sc *c11Scope) stackOfNew() string {
 }
 
 func (sc *c11Scope) waitSome(pred func(string) bool, d time.Duration) bool {
+	d = c11Clamp(d)
 	deadline := time.Now().Add(d)
 	for {
 		if len(sc.find(pred)) > 0 {
@@ -231,6 +274,8 @@ type c11Peer struct {
 	failType byte
 	// what CONNECT is answered with when ackConn is false: "" (nothing), refuse, close, malformed
 	connReply string
+	// PUBLISH QoS 2 on topic "p2" is NOT answered either (first attempt of a retried publish)
+	noP2 bool
 }
 
 func (p *c11Peer) note(t byte) {
@@ -291,7 +336,7 @@ func c11NewPeer(n int, ackConn bool) *c11Peer {
 					switch {
 					case qos == 1 && p.answering():
 						c.send(encID(0x40, id))
-					case qos == 2 && (p.answering() || string(pkt[4:4+tl]) == "p2"):
+					case qos == 2 && (p.answering() || (string(pkt[4:4+tl]) == "p2" && !p.noP2)):
 						c.send(encID(0x50, id))
 					}
 				}
@@ -361,6 +406,7 @@ func (p *c11Peer) count(t byte) int {
 
 // waitSeen waits until n packets of type t were written, or stop is closed.
 func (p *c11Peer) waitSeen(t byte, n int, stop <-chan struct{}, d time.Duration) bool {
+	d = c11Clamp(d)
 	timer := time.NewTimer(d)
 	defer timer.Stop()
 	for {
@@ -405,6 +451,10 @@ func c11Go(f func() error) chan c11Ret {
 }
 
 func c11Invoke(call string, wait2 bool, cli *mqtt.BaseClient, rc *mqtt.RetryClient, ctx context.Context) error {
+	if _, ok := c11RetryCalls[call]; ok {
+		// ErrorWithRetry.Retry(ctx2, cli2): the handle of the interrupted first attempt, a context of its own
+		return c11Handle.Retry(ctx, cli)
+	}
 	switch call {
 	case "connect":
 		if rc != nil {
@@ -439,6 +489,21 @@ func c11Invoke(call string, wait2 bool, cli *mqtt.BaseClient, rc *mqtt.RetryClie
 }
 
 func c11ReqType(call string, wait2 bool) byte {
+	switch c11RetryCalls[call] {
+	case "pub1":
+		return 0x30
+	case "pub2":
+		if wait2 {
+			return 0x60
+		}
+		return 0x30
+	case "rel":
+		return 0x60
+	case "sub":
+		return 0x80
+	case "unsub":
+		return 0xA0
+	}
 	switch call {
 	case "connect":
 		return 0x10
@@ -485,10 +550,12 @@ func c11Classify(r c11Ret, ctx context.Context) c11Res {
 }
 
 func c11Await(ch chan c11Ret, d time.Duration) (c11Ret, bool) {
+	d = c11Clamp(d)
 	select {
 	case r := <-ch:
 		return r, true
 	case <-time.After(d):
+		c11Expired(d)
 		return c11Ret{}, false
 	}
 }
@@ -506,12 +573,96 @@ func c11DoneClosed(cli *mqtt.BaseClient, d time.Duration) bool {
 			return false
 		}
 	}
+	d = c11Clamp(d)
 	select {
 	case <-ch:
 		return true
 	case <-time.After(d):
+		c11Expired(d)
 		return false
 	}
+}
+
+// ---------------------------------------------------------------- retry handles
+
+// c11PrepareHandle runs the first attempt of a request on a connection of its own, interrupts it — by ending
+// that connection (the first context stays alive) or, for the "x" calls, by cancelling the first context — and
+// leaves the ErrorWithRetry it returned in c11Handle. The returned function ends what is left of the first
+// attempt (its context is cancelled only then).
+func c11PrepareHandle(call string, wait2 bool) (func(), error) {
+	kind := c11RetryCalls[call]
+	origCancelled := strings.HasSuffix(call, "x")
+	wait := c11Limit()
+	firstConn := c11NewScope() // goroutines left over from earlier scenarios are not this one's
+	peer := c11NewPeer(0, true)
+	peer.noP2 = kind == "pub2" // interrupted before PUBREC
+	cli := &mqtt.BaseClient{Transport: peer.conn}
+	cctx, ccancel := ctxTimeout(wait)
+	_, err := cli.Connect(cctx, "cid")
+	ccancel()
+	if err != nil {
+		return func() {}, fmt.Errorf("first attempt: Connect: %v", err)
+	}
+	ctx1, cancel1 := context.WithCancel(context.Background())
+	var stuck string
+	cleanup := func() {
+		cancel1()
+		c11CloseG(cli, &stuck)
+		c11DoneClosed(cli, wait)
+	}
+	var ret chan c11Ret
+	var seen byte
+	switch kind {
+	case "pub1":
+		ret, seen = c11Go(func() error {
+			return cli.Publish(ctx1, &mqtt.Message{Topic: "t", QoS: mqtt.QoS1, Payload: []byte{1}})
+		}), 0x30
+	case "pub2":
+		topic := "p1"
+		if wait2 {
+			topic = "p2" // the second connection's peer will answer the retransmitted PUBLISH with PUBREC
+		}
+		ret, seen = c11Go(func() error {
+			return cli.Publish(ctx1, &mqtt.Message{Topic: topic, QoS: mqtt.QoS2, Payload: []byte{2}})
+		}), 0x30
+	case "rel":
+		ret, seen = c11Go(func() error {
+			return cli.Publish(ctx1, &mqtt.Message{Topic: "p2", QoS: mqtt.QoS2, Payload: []byte{2}})
+		}), 0x60
+	case "sub":
+		ret, seen = c11Go(func() error {
+			_, err := cli.Subscribe(ctx1, mqtt.Subscription{Topic: "a/b", QoS: mqtt.QoS1})
+			return err
+		}), 0x80
+	case "unsub":
+		ret, seen = c11Go(func() error { return cli.Unsubscribe(ctx1, "a/b") }), 0xA0
+	}
+	if !peer.waitSeen(seen, 1, nil, wait) {
+		cleanup()
+		return func() {}, fmt.Errorf("first attempt of %s never wrote its request", call)
+	}
+	if origCancelled {
+		cancel1()
+	} else {
+		c11CloseG(cli, &stuck)
+	}
+	r, ok := c11Await(ret, wait)
+	if !ok || r.panicked != "" {
+		cleanup()
+		return func() {}, fmt.Errorf("first attempt of %s did not return after its interruption (%s)", call, r.panicked)
+	}
+	h, isRetry := r.err.(mqtt.ErrorWithRetry)
+	if !isRetry {
+		cleanup()
+		return func() {}, fmt.Errorf("first attempt of %s returned no retry handle: %v", call, r.err)
+	}
+	c11Handle = h
+	// the first connection is ended completely now (its reader must not be mistaken for the second one's);
+	// only the first context lives on — alive or cancelled — until the scenario is over
+	c11CloseG(cli, &stuck)
+	c11DoneClosed(cli, wait)
+	firstConn.waitNone(c11IsReader, wait)
+	return cancel1, nil
 }
 
 // ---------------------------------------------------------------- one matrix cell
@@ -535,13 +686,21 @@ func c11RunCell(sp c11Spec) c11Obs {
 }
 
 func c11RunCellOnce(sp c11Spec, deadline time.Duration) (obs c11Obs, deadlineEarly bool) {
-	wait := c11Wait * time.Duration(c11WaitScale)
+	wait := c11Limit()
 	sc := c11NewScope()
 	call, point, cause := sp.Call, sp.Point, sp.Cause
 	wait2 := point == "wait2"
 	entry := point == "entry"
 	bg := context.Background()
 
+	if _, isRetry := c11RetryCalls[call]; isRetry {
+		endFirst, err := c11PrepareHandle(call, wait2)
+		defer endFirst()
+		if err != nil {
+			obs.c11Res = c11Res{Res: "other", Detail: "setup: " + err.Error()}
+			return obs, false
+		}
+	}
 	peer := c11NewPeer(1, call != "connect" && !entry)
 	cli := &mqtt.BaseClient{Transport: peer.conn}
 	var rc *mqtt.RetryClient
@@ -562,7 +721,7 @@ func c11RunCellOnce(sp c11Spec, deadline time.Duration) (obs c11Obs, deadlineEar
 			c11Await(ch, wait)
 			cancel()
 		}
-		cli.Close()
+		c11CloseG(cli, &obs.AuxStuck)
 		for _, p := range pending {
 			if _, ok := c11Await(p.ch, wait); !ok {
 				obs.AuxStuck += p.name + " "
@@ -616,7 +775,7 @@ func c11RunCellOnce(sp c11Spec, deadline time.Duration) (obs c11Obs, deadlineEar
 	applyConnCause := func(sync bool) {
 		switch cause {
 		case "localclose":
-			cli.Close()
+			c11CloseG(cli, &obs.AuxStuck)
 		case "localdisconnect":
 			dctx, dcancel := ctxTimeout(wait)
 			cancels = append(cancels, dcancel)
@@ -726,7 +885,7 @@ func c11ObserveEnd(obs *c11Obs, sc *c11Scope, peer *c11Peer, cli *mqtt.BaseClien
 // PEntry: a Connect waiting for CONNACK holds muConnecting; the call under test waits for it
 func c11EntryCell(sp c11Spec, sc *c11Scope, peer *c11Peer, cli *mqtt.BaseClient, rc *mqtt.RetryClient,
 	hcancel context.CancelFunc, holder chan c11Ret, cancels *[]context.CancelFunc, pending *[]c11Pending, deadline time.Duration, obs *c11Obs) c11Obs {
-	wait := c11Wait * time.Duration(c11WaitScale)
+	wait := c11Limit()
 	bg := context.Background()
 	call, cause := sp.Call, sp.Cause
 	var ctx context.Context
@@ -770,7 +929,7 @@ func c11EntryCell(sp c11Spec, sc *c11Scope, peer *c11Peer, cli *mqtt.BaseClient,
 	} else {
 		switch cause {
 		case "localclose":
-			cli.Close()
+			c11CloseG(cli, &obs.AuxStuck)
 		case "peerclose":
 			peer.ended = true
 			peer.conn.finish()
@@ -796,10 +955,18 @@ func c11EntryCell(sp c11Spec, sc *c11Scope, peer *c11Peer, cli *mqtt.BaseClient,
 // 1 = Disconnect whose DISCONNECT write fails (the transport reports an error and stays open), then cli.Close();
 // 2 = successful Disconnect, then cli.Close().
 func c11RunSeq(sp c11Spec) (obs c11Obs) {
-	wait := c11Wait * time.Duration(c11WaitScale)
+	wait := c11Limit()
 	sc := c11NewScope()
 	bg := context.Background()
 	call := sp.Call
+	if _, isRetry := c11RetryCalls[call]; isRetry {
+		endFirst, err := c11PrepareHandle(call, false)
+		defer endFirst()
+		if err != nil {
+			obs.c11Res = c11Res{Res: "other", Detail: "setup: " + err.Error()}
+			return obs
+		}
+	}
 	peer := c11NewPeer(1, call != "connect")
 	cli := &mqtt.BaseClient{Transport: peer.conn}
 	var rc *mqtt.RetryClient
@@ -818,7 +985,7 @@ func c11RunSeq(sp c11Spec) (obs c11Obs) {
 			c11Await(c11Go(func() error { return rc.Disconnect(ctx) }), wait)
 			cancel()
 		}
-		cli.Close()
+		c11CloseG(cli, &obs.AuxStuck)
 		for _, p := range pending {
 			if _, ok := c11Await(p.ch, wait); !ok {
 				obs.AuxStuck += p.name + " "
@@ -842,10 +1009,7 @@ func c11RunSeq(sp c11Spec) (obs c11Obs) {
 	cancels = append(cancels, cancel)
 	closeIt := func() {
 		// Close must never panic, whatever happened before
-		if r, _ := c11Await(c11Go(func() error { cli.Close(); return nil }), wait); r.panicked != "" {
-			obs.Note = "Close panicked: " + r.panicked
-			obs.AuxStuck += "Close panicked "
-		}
+		c11CloseG(cli, &obs.AuxStuck)
 	}
 	switch sp.K {
 	case 0:
@@ -897,7 +1061,7 @@ func c11RunSeq(sp c11Spec) (obs c11Obs) {
 // PUBLISH. The marker reaching the handler shows that the reader has consumed them and is alive. Then the
 // cause strikes as in a matrix cell (with one call parked, or none).
 func c11RunStray(sp c11Spec) (obs c11Obs) {
-	wait := c11Wait * time.Duration(c11WaitScale)
+	wait := c11Limit()
 	sc := c11NewScope()
 	bg := context.Background()
 	peer := c11NewPeer(1, true)
@@ -918,7 +1082,7 @@ func c11RunStray(sp c11Spec) (obs c11Obs) {
 		for _, c := range cancels {
 			c()
 		}
-		cli.Close()
+		c11CloseG(cli, &obs.AuxStuck)
 		if wedged {
 			// the reader goroutine sits in a hand-off for ever: nothing to wait for
 			obs.Leak = sc.find(nil)
@@ -1047,7 +1211,7 @@ func c11RunStray(sp c11Spec) (obs c11Obs) {
 	case "cancel":
 		cancel()
 	case "localclose":
-		cli.Close()
+		c11CloseG(cli, &obs.AuxStuck)
 	case "localdisconnect":
 		dctx, dcancel := ctxTimeout(wait)
 		cancels = append(cancels, dcancel)
@@ -1080,7 +1244,7 @@ func c11RunStray(sp c11Spec) (obs c11Obs) {
 // ---------------------------------------------------------------- several calls blocked at once
 
 func c11RunMulti(sp c11Spec) (obs c11Obs) {
-	wait := c11Wait * time.Duration(c11WaitScale)
+	wait := c11Limit()
 	sc := c11NewScope()
 	peer := c11NewPeer(1, true)
 	cli := &mqtt.BaseClient{Transport: peer.conn}
@@ -1088,7 +1252,7 @@ func c11RunMulti(sp c11Spec) (obs c11Obs) {
 	var auxCh chan c11Ret
 	var rets []chan c11Ret
 	defer func() {
-		cli.Close()
+		c11CloseG(cli, &obs.AuxStuck)
 		if auxCh != nil {
 			if _, ok := c11Await(auxCh, wait); !ok {
 				obs.AuxStuck = "Disconnect used as cause"
@@ -1152,7 +1316,7 @@ func c11RunMulti(sp c11Spec) (obs c11Obs) {
 	collect(sp.Cancel)
 	switch sp.Cause {
 	case "localclose":
-		cli.Close()
+		c11CloseG(cli, &obs.AuxStuck)
 	case "localdisconnect":
 		dctx, dcancel := ctxTimeout(wait)
 		defer dcancel()
@@ -1268,7 +1432,7 @@ func (d *c11Dialer) lastPeer() *c11Peer {
 }
 
 func c11RunReconn(sp c11Spec) (obs c11Obs) {
-	wait := c11Wait * time.Duration(c11WaitScale)
+	wait := c11Limit()
 	sc := c11NewScope()
 	bg := context.Background()
 	d := &c11Dialer{wake: make(chan struct{}, 1)}
@@ -1323,7 +1487,7 @@ func c11RunReconn(sp c11Spec) (obs c11Obs) {
 		clis := append([]*mqtt.BaseClient{}, d.clis...)
 		d.mu.Unlock()
 		for _, c := range clis {
-			c.Close()
+			c11CloseG(c, &obs.AuxStuck)
 		}
 		if connCh != nil {
 			if _, ok := c11Await(connCh, wait); !ok {
@@ -1537,10 +1701,11 @@ func runC11Child(cfg *runCfg) error {
 }
 
 type c11Child struct {
-	cmd    *exec.Cmd
-	stdin  io.WriteCloser
-	stdout *bufio.Reader
-	stderr *strings.Builder
+	cmd      *exec.Cmd
+	stdin    io.WriteCloser
+	stdout   *bufio.Reader
+	stderr   *strings.Builder
+	timedOut bool
 }
 
 func c11Spawn() (*c11Child, error) {
@@ -1582,7 +1747,8 @@ func (c *c11Child) run(sp c11Spec) (c11Obs, bool) {
 			return c11Obs{}, false
 		}
 		return o, true
-	case <-time.After(4 * time.Minute):
+	case <-time.After(75 * time.Second): // a scenario never needs more than ~50 s of limits
+		c.timedOut = true
 		return c11Obs{}, false
 	}
 }
@@ -1613,7 +1779,8 @@ func (c *c11Child) kill() string {
 
 // ---------------------------------------------------------------- Coq encoding
 
-var c11CallCode = map[string]int{"connect": 0, "pub0": 1, "pub1": 2, "pub2": 3, "sub": 4, "unsub": 5, "ping": 6, "disconnect": 7, "retryping": 8}
+var c11CallCode = map[string]int{"connect": 0, "pub0": 1, "pub1": 2, "pub2": 3, "sub": 4, "unsub": 5, "ping": 6, "disconnect": 7, "retryping": 8,
+	"rpub1": 9, "rpub1x": 10, "rpub2": 11, "rpub2x": 12, "rrel": 13, "rrelx": 14, "rsub": 15, "rsubx": 16, "runsub": 17, "runsubx": 18}
 var c11PointCode = map[string]int{"entry": 0, "before": 1, "wait1": 2, "wait2": 3, "inwrite": 4}
 var c11CauseCode = map[string]int{"cancel": 0, "deadline": 1, "localclose": 2, "localdisconnect": 3, "peerclose": 4, "malformed": 5}
 var c11ResCode = map[string]int{"stuck": 0, "nil": 1, "ctx": 2, "closed": 3, "write": 4, "other": 5, "panic": 6}
@@ -1634,14 +1801,15 @@ func c11Names(m map[string]int) []string {
 }
 
 func c11Valid(call, point, cause string) bool {
-	nw := map[string]int{"pub0": 0, "disconnect": 0, "pub2": 2}
+	nw := map[string]int{"pub0": 0, "disconnect": 0, "pub2": 2, "rpub2": 2, "rpub2x": 2}
 	n, ok := nw[call]
 	if !ok {
 		n = 1
 	}
 	switch point {
 	case "entry":
-		return call != "connect" && cause != "localdisconnect"
+		// retryPublish2 (rrel) takes no lock
+		return call != "connect" && call != "rrel" && call != "rrelx" && cause != "localdisconnect"
 	case "before":
 		return true
 	case "wait1":
@@ -1709,13 +1877,27 @@ func runC11(cfg *runCfg) error {
 	// in minutes, not in a quarter of an hour.
 	const maxHung = 6
 	hung, skipped := 0, 0
+	// ... and a hard limit for the whole run: past it everything left is skipped (and counted)
+	budget := 150 * time.Second
+	if cfg.tier == "thorough" {
+		budget = 25 * time.Minute
+	}
+	runDeadline := time.Now().Add(budget)
+	over := func() bool { return hung >= maxHung || time.Now().After(runDeadline) }
 	exec1 := func(sp c11Spec) (c11Obs, error) {
 		o, ok := child.run(sp)
 		if !ok {
+			timedOut := child.timedOut
 			crash := child.kill()
 			crashes++
-			o = c11Obs{c11Res: c11Res{Res: "panic", Detail: crash}, Crash: crash}
-			m.ImplViolations = append(m.ImplViolations, map[string]interface{}{"scenario": sp, "what": "the process running this scenario died", "crash": crash})
+			hung++
+			if timedOut {
+				o = c11Obs{c11Res: c11Res{Res: "stuck", Detail: "the scenario exceeded its budget of 75 s; its process was killed"}, AuxStuck: "scenario killed "}
+				hung-- // counted below
+			} else {
+				o = c11Obs{c11Res: c11Res{Res: "panic", Detail: crash}, Crash: crash}
+			}
+			m.ImplViolations = append(m.ImplViolations, map[string]interface{}{"scenario": sp, "what": map[bool]string{true: "the scenario did not end within 75 s: its process was killed", false: "the process running this scenario died"}[timedOut], "crash": crash})
 			var e error
 			child, e = c11Spawn()
 			if e != nil {
@@ -1760,7 +1942,7 @@ func runC11(cfg *runCfg) error {
 		order := r.Perm(len(specs))
 		for _, i := range order {
 			sp := specs[i]
-			if hung >= maxHung {
+			if over() {
 				skipped++
 				continue
 			}
@@ -1800,7 +1982,7 @@ func runC11(cfg *runCfg) error {
 	seqSpecs = append(seqSpecs, c11Spec{Fam: "seq", Call: "disconnect", K: 1}, c11Spec{Fam: "seq", Call: "disconnect", K: 2})
 	for round := 0; round < rounds; round++ {
 		for _, sp := range seqSpecs {
-			if hung >= maxHung {
+			if over() {
 				skipped++
 				continue
 			}
@@ -1859,7 +2041,7 @@ func runC11(cfg *runCfg) error {
 	}
 	for _, i := range strayOrder {
 		sp := straySpecs[i]
-		if hung >= maxHung {
+		if over() {
 			skipped++
 			continue
 		}
@@ -1868,7 +2050,7 @@ func runC11(cfg *runCfg) error {
 			return err
 		}
 		strayRun++
-		cc := 9
+		cc := 99
 		if sp.Call != "none" {
 			cc = c11CallCode[sp.Call]
 		}
@@ -1904,7 +2086,7 @@ func runC11(cfg *runCfg) error {
 			}
 			sort.Ints(sp.Cancel)
 		}
-		if hung >= maxHung {
+		if over() {
 			skipped++
 			continue
 		}
@@ -1947,7 +2129,7 @@ func runC11(cfg *runCfg) error {
 					continue
 				}
 				sp := c11Spec{Fam: "reconn", Phase: p, Cause: z}
-				if hung >= maxHung {
+				if over() {
 					skipped++
 					continue
 				}
@@ -2004,6 +2186,8 @@ func runC11(cfg *runCfg) error {
 	m.Distribution["reconn_scenarios"] = len(rcCases)
 	m.Distribution["child_crashes"] = crashes
 	m.Distribution["scenarios_hung"] = hung
+	m.Distribution["run_budget_s"] = int(budget / time.Second)
+	m.Distribution["run_budget_exhausted"] = time.Now().After(runDeadline)
 	m.Distribution["scenarios_skipped_after_hangs"] = skipped
 	m.Distribution["stray_scenarios"] = strayRun
 	m.Distribution["stray_space"] = len(straySpecs)
